@@ -315,22 +315,21 @@ theorem slice_deref_counterexample :
 
 /-! ## 10. string_index -/
 
+/-- string indexing reads only offsets `0 ≤ i < strlen` (full strength since fix f8907f0) -/
 theorem string_index (len : Nat) (i : Int) :
-    stringDerefOkFixed len i = true ↔ (0 ≤ i ∧ i < (len : Int)) := by
-  simp [stringDerefOkFixed]
-
-theorem string_deref_partial (len : Nat) (i : Int) (hi : 0 ≤ i) :
     stringDerefOk len i = true ↔ (0 ≤ i ∧ i < (len : Int)) := by
-  simp [stringDerefOk, hi]
+  simp [stringDerefOk]
 
-theorem string_deref_counterexample :
-    stringDerefOk 3 (-1) = true ∧ stringDerefOkFixed 3 (-1) = false ∧
-    (∀ len : Nat, ∀ i : Int, i < 0 → stringDerefOk len i = true) := by
+/-- the defect that was repaired: the pinned guard accepted every negative index
+(recorded as `fixed:` in known_findings.json; the check reports it again if it ever returns) -/
+theorem string_deref_pinned_counterexample :
+    stringDerefOkPinned 3 (-1) = true ∧ stringDerefOk 3 (-1) = false ∧
+    (∀ len : Nat, ∀ i : Int, i < 0 → stringDerefOkPinned len i = true) := by
   refine ⟨by decide, by decide, ?_⟩
   intro len i hi
-  simp [stringDerefOk]; omega
+  simp [stringDerefOkPinned]; omega
 
-example : stringDerefOkFixed 3 2 = true ∧ stringDerefOkFixed 3 3 = false := by decide
+example : stringDerefOk 3 2 = true ∧ stringDerefOk 3 3 = false ∧ stringDerefOk 3 (-1) = false := by decide
 
 theorem slice_string (s : List UInt8) (fr t : Int) :
     ((sliceString s fr t).isSome ↔
